@@ -941,7 +941,7 @@ def exec_stmt(eng, st, path, txid, stmt, args):
                     raise SqlErr(1, 1, "no such column: %s" % n)
         return ("rows", names, rows)
     if d.txid is not None and txid is None:
-        raise Unsupported("write on *sql.DB while a transaction is open (SQLITE_BUSY)")
+        raise SqlErr(5, 5, "database is locked")
     if kind == "insert":
         _, table, cols, vals, upsert = stmt
         t = find_table(tabs, table)
@@ -1426,7 +1426,9 @@ def sqldb_begin(eng, st, fr, args, ins):
             return (None, eng.load(st, eng.global_ptr(st, "context.Canceled")))
     d = get_db(st, path)
     if d.txid is not None:
-        raise PathEnd("blocked", "BeginTx while another transaction is open (SQLite exclusive lock)")
+        # a transaction that was never committed nor rolled back still holds the exclusive lock: after the busy timeout
+        # SQLite answers SQLITE_BUSY ("database is locked")
+        return (None, mk_sqlite_err(eng, st, SqlErr(5, 5, "database is locked")))
     d2 = d.clone()
     d2.txid = d.nextid
     d2.nextid = d.nextid + 1
@@ -1593,7 +1595,7 @@ def meddler_insert(eng, st, fr, args, ins):
         d = get_db(st, path)
         tabs = tables_for(d, txid)
         if d.txid is not None and txid is None:
-            raise Unsupported("write on *sql.DB while a transaction is open (SQLITE_BUSY)")
+            raise SqlErr(5, 5, "database is locked")
         t = find_table(tabs, table)
         try:
             tabs = do_insert(eng, st, d, txid, tabs, t, row)
@@ -1782,6 +1784,8 @@ def _db_of(eng, st, q):
 @intr(ZZ + "FailInsert")
 def zz_failinsert(eng, st, fr, args, ins):
     path = _db_of(eng, st, args[0])
+    if get_db(st, path).txid is not None:
+        raise GoPanic("database is locked")
     table, n = args[1], args[2]
     d = get_db(st, path).clone()
     t = find_table(d.committed, table)
@@ -1803,6 +1807,9 @@ def zz_faildelete(eng, st, fr, args, ins):
 @intr(ZZ + "ClearFaults")
 def zz_clearfaults(eng, st, fr, args, ins):
     path = _db_of(eng, st, args[0])
+    if get_db(st, path).txid is not None:
+        # natively the DROP TRIGGER statements hit the exclusive lock of a transaction that was left open
+        raise GoPanic("database is locked")
     d = get_db(st, path).clone()
     d.faults = ()
     st.world[dbkey(path)] = d
